@@ -175,6 +175,52 @@ func c05Run(c *Ctx) {
 			}
 		}
 	}
+	// 2b. else-if chains of 1..6 conditions, braced and unbraced arms, with and without a final else:
+	// exactly the first arm whose condition is truthy runs (sel = index of that arm; sel == n: none),
+	// conditions are traced probes, and arms inside a loop may break / continue
+	for n := 1; n <= 6; n++ {
+		for sel := 0; sel <= n; sel++ {
+			for style := 0; style < 4; style++ {
+				arm := func(i int, extra string) string {
+					body := Print(fmt.Sprintf(`"arm%d"`, i)) + extra
+					if style%2 == 0 {
+						return body
+					}
+					return "{ " + body + " }"
+				}
+				mk := func(extras bool) string {
+					var chain strings.Builder
+					for i := 0; i < n; i++ {
+						if i > 0 {
+							chain.WriteString(" " + K["else"] + " ")
+						}
+						ex := ""
+						if extras && i == n-1 {
+							ex = " " + Continue()
+						} else if extras && i == 1 {
+							ex = " " + Break()
+						}
+						chain.WriteString(K["if"] + " (" + fmt.Sprintf(`c("cond%d", k == %d)`, i, i) + ") " + arm(i, ex))
+						if style >= 2 {
+							chain.WriteString("\n")
+						}
+					}
+					if style >= 2 || n%2 == 0 {
+						chain.WriteString(" " + K["else"] + " " + arm(99, ""))
+					}
+					return chain.String()
+				}
+				src := pre + Lines(Var("k", fmt.Sprint(sel)), mk(false), Print(`"after"`),
+					For(Var("r", "0"), "r < 4", "r = r + 1", "{ k = k - 1; "+mk(style%2 == 1)+" "+Print(`"tail"`)+" }"), Print(`"end"`))
+				if c.Mine() {
+					c05Judge(c, &Case{Gen: "else-if-chains", Src: src})
+				}
+				if c.Mine() && style == 0 {
+					c05Judge(c, &Case{Gen: "else-if-chains-cli", Mode: "cli", Src: src})
+				}
+			}
+		}
+	}
 	// 3. stray signals reaching the top level
 	for _, kw := range []string{Break(), Continue(), Ret(""), Ret("5")} {
 		for _, shape := range []string{
@@ -233,6 +279,28 @@ func c05Run(c *Ctx) {
 			c05Judge(c, &Case{Gen: "empty-bodies-cli", Mode: "cli", Src: src})
 		}
 	}
+	// 3b. the same after the run has already been through loops and calls that ended in every way
+	// (return out of a loop, out of nested loops, break, continue, a loop ended by a fault-free callee)
+	histories := []string{
+		Lines(Fun("f", "", " "+While(True(), "{ "+Ret("1")+" }")+" "), Print("f()")),
+		Lines(Fun("f", "", " "+For(Var("i", "0"), "i < 5", "i = i + 1", "{ "+For(Var("j", "0"), "j < 5", "j = j + 1", "{ "+If("j == 2", Ret("i + j"))+" }")+" }")+" "), Print("f()"), Print("f()")),
+		Lines(Var("i", "0"), While(True(), "{ i = i + 1; "+If("i > 2", Break())+" }"), For(Var("j", "0"), "j < 3", "j = j + 1", "{ "+Continue()+" }"), Print("i")),
+		Lines(Fun("g", "n", " "+If("n == 0", Ret("0"))+" "+While("n > 0", "{ "+Ret("g(n - 1)")+" }")+" "), Print("g(3)")),
+		Lines(Fun("h", "", " "+For(";", "", "", "{ "+If(True(), "{ { "+Ret("")+" } }")+" }")+" "), "h();", "h();", For(Var("q", "0"), "q < 2", "q = q + 1", "{ h(); }")),
+	}
+	for hi, hist := range histories {
+		for _, kw := range []string{Break(), Continue(), Ret(""), Ret("5")} {
+			for _, shape := range []string{"%s", "{ %s }", If(True(), "%s"), IfElse(False(), Print("1"), "{ "+Print(`"in"`)+" %s "+Print(`"not reached"`)+" }")} {
+				src := hist + fmt.Sprintf(shape, kw) + "\n" + Print(`"must not print"`) + "\n"
+				if c.Mine() {
+					c05Judge(c, &Case{Gen: "stray-signals-after-history", Src: src, X: map[string]string{"history": fmt.Sprint(hi)}})
+				}
+				if c.Mine() && hi%2 == 0 {
+					c05Judge(c, &Case{Gen: "stray-signals-after-history-cli", Mode: "cli", Src: src})
+				}
+			}
+		}
+	}
 	// 4c. long-running loops: more than a million rounds in one run, in one loop, in consecutive loops, nested
 	for _, src := range []string{
 		Lines(Var("i", "0"), While("i < 1200000", "{ i = i + 1; }"), Print("i")),
@@ -263,10 +331,10 @@ func c05Run(c *Ctx) {
 func init() {
 	register(&CheckDef{
 		ID:   "C05",
-		Rule: "programs: every loop skeleton = outer loop of 6 kinds (while, for, for without condition / increment / initializer, for declaring two header variables) whose body is every sequence of <=2 (quick) / <=3 (thorough) items from 13 control items (trace, break, continue, guarded break/continue, if/else arms, nested block) with at most one nested inner loop (4 kinds x all bodies of <=2 of 11 items); initializer, every condition test and every increment is a tracing probe call, so the whole order init->cond->body->incr is printed; arm selection in 6 condition contexts for 21 values of every kind; stray break/continue/return in 8 top-level shapes x 3 leading-line counts (in-process and through the binary); hand-written nests; seeded random programs. Compared with refborno on the complete trace, first diagnostic and exit status. Non-trivial = distinct program that executes at least one loop iteration or one if arm.",
+		Rule: "programs: every loop skeleton = outer loop of 6 kinds (while, for, for without condition / increment / initializer, for declaring two header variables) whose body is every sequence of <=2 (quick) / <=3 (thorough) items from 13 control items (trace, break, continue, guarded break/continue, if/else arms, nested block) with at most one nested inner loop (4 kinds x all bodies of <=2 of 11 items); initializer, every condition test and every increment is a tracing probe call, so the whole order init->cond->body->incr is printed; arm selection in 6 condition contexts for 21 values of every kind; else-if chains of 1-6 traced conditions x every selected arm x 4 styles (braced / unbraced, with / without final else, break / continue in arms) at top level and in a loop; stray break/continue/return in 8 top-level shapes x 3 leading-line counts, and in 4 shapes after 5 histories of loops and calls ended by return / break / continue (in-process and through the binary); hand-written nests; seeded random programs. Compared with refborno on the complete trace, first diagnostic and exit status. Non-trivial = distinct program that executes at least one loop iteration or one if arm.",
 		Assumptions: []string{"every generated loop is bounded by construction; programs the model cannot finish in 200000 steps are skipped"},
 		Run:         c05Run,
 		Judge:       c05Judge,
-		MustCount:   func(c *Ctx) []string { return []string{"gen:loop-skeletons", "gen:empty-bodies", "gen:long-running-loops", "gen:arm-selection", "gen:stray-signals", "breaks_taken", "continues_taken", "then_arms", "else_arms", "fault:StrayBreak", "fault:StrayContinue", "fault:StrayReturn", "cli_runs"} },
+		MustCount:   func(c *Ctx) []string { return []string{"gen:loop-skeletons", "gen:empty-bodies", "gen:long-running-loops", "gen:arm-selection", "gen:stray-signals", "gen:stray-signals-after-history", "gen:else-if-chains", "breaks_taken", "continues_taken", "then_arms", "else_arms", "fault:StrayBreak", "fault:StrayContinue", "fault:StrayReturn", "cli_runs"} },
 	})
 }
